@@ -39,7 +39,8 @@ def main():
             sigs = sorted(set(re.findall(r"signature=(\S+)", r.stdout)))
             meta = {}
             try:
-                meta = json.load(open(os.path.join(d, "meta.json")))
+                suf = os.path.basename(p)[5:-5]
+                meta = json.load(open(os.path.join(d, "meta%s.json" % suf)))
             except Exception:
                 pass
             results[name] = {"property": prop, "tier": tier, "exit": r.returncode, "detected": r.returncode == 1, "signatures": sigs[:8],
